@@ -95,6 +95,12 @@ class C01(Check):
     def model_checks(self, ctx):
         model_check(ctx, "MC_SimdDispatch", "MC_SimdDispatch.cfg", workers=1)
 
+    def configs(self, ctx):
+        if ctx.tier == "quick":
+            return list(QUICK_CFGS)
+        # every ISA under C++14, the two wide ones also under C++17 (the kernels have if-constexpr branches)
+        return ["%s-14-O2" % i for i in ALL_ISAS] + ["avx2-17-O2", "avx512-17-O2"]
+
     def plan(self, ctx):
         cfg = "GenMatmul_%s.cfg" % ctx.tier
         items, gen, dist, out = tlc_emit(ctx, "GenMatmul", cfg, env={"VERIF_SEED": str(ctx.seed)})
